@@ -245,7 +245,7 @@ class Run:
             secs += o.seconds
         samples = [o.text or o.id for o in exact[:3]] + [o.text or o.id for o in exact[-2:]]
         coverage = {
-            "obligations": len(exact),
+            "obligations": len(exact) - n_known_exact,  # known findings are listed separately below
             "discharged": n_disc,
             "known_findings_failing": n_known_exact,
             "checker_cmd": f"cd /verif && ./check {self.prop} --tier {self.tier}",
